@@ -717,6 +717,10 @@ func (p *pp) printValue(value reflect.Value, verb rune, depth int)
   -- so a recursive call that forgets the +1 on depth does not have it
   requires [C05,C08] depth >= 0 && (depth == 0 ==> p.gdone)
   ghost p.gdone = false at entry
+  -- the elements of a slice or array are printed one by one, each with its own method dispatch (an element that is an
+  -- error goes to the registered hook, a SafeValue element is visible): only the byte-string verbs s, q, x, X take a
+  -- slice of uint8-kind elements as a whole (fmt's rule)
+  assert [C05,C17] verb == 115 || verb == 113 || verb == 120 || verb == 88 before "p.fmtBytes(bytes, verb, t.String())"
   -- the safe override for a SafeValue is justified by the value being printed now, not by a leftover operand
   assert [C02,C05] value.CanInterface() && p.arg == value.Interface() before "defer p.startSafeOverride().restore()" #2
   may-panic
